@@ -23,6 +23,9 @@ def class_source(kind, sig, name):
         fields.append(f"    {FN[j - 1]}: int" + ("" if j <= sig["r"] else f" = {20 + j}"))
     if kind == "dataclass":
         return f"@dataclass\nclass {name}:\n" + "\n".join(fields) + "\n"
+    if kind == "dataclass_initfalse":
+        # a field that is not a constructor parameter comes first: fields(cls) differs from the signature
+        return f"@dataclass\nclass {name}:\n    z: int = field(default=7, init=False)\n" + "\n".join(fields) + "\n"
     return f"class {name}(NamedTuple):\n" + "\n".join(fields) + "\n"
 
 
@@ -84,9 +87,9 @@ def run(prop, tier):
     moddir = tlcrun.fresh_dir(common.outdir(prop, "mod"))
     modpath = os.path.join(moddir, "c06_queries.py")
     classes = {}
-    lines = ["from dataclasses import dataclass\nfrom typing import NamedTuple\n\n"]
+    lines = ["from dataclasses import dataclass, field\nfrom typing import NamedTuple\n\n"]
     for c in cases:
-        nm = f"{'DC' if c['cls'] == 'dataclass' else 'NT'}_{c['sig']['n']}_{c['sig']['r']}"
+        nm = f"{ {'dataclass': 'DC', 'namedtuple': 'NT', 'dataclass_initfalse': 'DI'}[c['cls']] }_{c['sig']['n']}_{c['sig']['r']}"
         if nm not in classes:
             classes[nm] = True
             lines.append(class_source(c["cls"], c["sig"], nm) + "\n\n")
